@@ -1508,10 +1508,15 @@ func (g *gen) writeInitializerImpl(b *buffer, n *a.Struct) error {
 			continue
 		}
 
+		// A sub-struct field can be in either part of the struct.
+		pd := "private_impl"
+		if f.PrivateData() {
+			pd = "private_data"
+		}
 		b.printf("{\n")
 		b.printf("wuffs_base__status z = %s%s__initialize(\n"+
-			"&self->private_data.%s%s, sizeof(self->private_data.%s%s), WUFFS_VERSION, options);\n",
-			prefix, qid[1].Str(g.tm), fPrefix, f.Name().Str(g.tm), fPrefix, f.Name().Str(g.tm))
+			"&self->%s.%s%s, sizeof(self->%s.%s%s), WUFFS_VERSION, options);\n",
+			prefix, qid[1].Str(g.tm), pd, fPrefix, f.Name().Str(g.tm), pd, fPrefix, f.Name().Str(g.tm))
 		b.printf("if (z.repr) {\nreturn z;\n}\n")
 		b.printf("}\n")
 	}
